@@ -33,6 +33,7 @@ type Contract struct {
 	Escapes   []*SExp
 	Fresh     []*SExp
 	GhostSets []*Clause
+	GhostHavoc []string // ghost variables the function may change arbitrarily (constrained only by ensures)
 	PanicsIf  *SExp
 	Loops     map[int]*LoopAnn
 	Inline    bool
@@ -41,6 +42,7 @@ type Contract struct {
 	Uses      []string
 	Lemmas    []*SExp // assumed spec facts instantiated: (apply ...)
 	NoFrame   bool
+	SplitReturns bool // exit obligations per return statement instead of one merged exit state
 	File      string
 	Canary    bool
 	Asserts   map[string][]*Clause // assert-at labels
@@ -170,6 +172,8 @@ func (p *Prog) parseContract(x *SExp, pkg string) (*Contract, error) {
 				c.Sweep = true
 			case "noframe":
 				c.NoFrame = true
+			case "split-returns":
+				c.SplitReturns = true
 			case "int":
 				c.Int = true
 			default:
@@ -185,6 +189,10 @@ func (p *Prog) parseContract(x *SExp, pkg string) (*Contract, error) {
 			}
 		case "requires":
 			c.Requires = append(c.Requires, lab("req", args))
+		case "ensures-internal":
+			// checked at the function's exit (may mention its locals); not visible to callers
+			cl := lab("post", args)
+			c.Steps = append(c.Steps, &Clause{Label: "ensures:" + cl.Label, X: cl.X})
 		case "ensures":
 			cl := lab("post", args)
 			c.Ensures = append(c.Ensures, cl)
@@ -201,6 +209,10 @@ func (p *Prog) parseContract(x *SExp, pkg string) (*Contract, error) {
 			c.FreshFields = append(c.FreshFields, it)
 		case "ghost-set":
 			c.GhostSets = append(c.GhostSets, &Clause{Label: args[0].Atom, X: args[1]})
+		case "ghost-havoc":
+			for _, a := range args {
+				c.GhostHavoc = append(c.GhostHavoc, a.Atom)
+			}
 		case "panics-if":
 			c.PanicsIf = args[0]
 		case "uses":
@@ -327,6 +339,7 @@ func (p *Prog) loadSpecFile(path string) error {
 				return fmt.Errorf("%s: %s: %v", path, f.Name, err)
 			}
 			p.SpecFns[f.Name] = f
+			p.SpecFileOf[f.Name] = base
 			add(p.printDecl(f))
 		case "define-fun", "define-fun-rec":
 			f := &SpecFn{Name: x.List[1].Atom}
@@ -344,6 +357,7 @@ func (p *Prog) loadSpecFile(path string) error {
 			}
 			f.Body = x.List[4]
 			p.SpecFns[f.Name] = f
+			p.SpecFileOf[f.Name] = base
 			add(p.printDefine(x.Head(), f))
 			p.OpaqueDecl[p.printDefine(x.Head(), f)] = p.printDecl(f)
 		case "defrec":
@@ -363,6 +377,7 @@ func (p *Prog) loadSpecFile(path string) error {
 			}
 			f.Body = x.List[4]
 			p.SpecFns[f.Name] = f
+			p.SpecFileOf[f.Name] = base
 			p.Recs[f.Name] = true
 			add(p.printDecl(f))
 		case "defmacro":
@@ -797,7 +812,7 @@ func (p *Prog) elab(fx *Fx, x *SExp, env *Env) Val {
 	case "fresh-obj":
 		// the object did not exist on entry
 		v := p.elab(fx, args[0], env)
-		return tv(p.isFresh(fx, v.L[0]))
+		return tv(p.isFresh(fx, v.L[objLeaf(v)]))
 	}
 	if bvBin[h] {
 		a, b := coerce(T(0), T(1))
